@@ -55,17 +55,17 @@ func flagDuration(src, name string) (time.Duration, error) {
 }
 
 // readSource reads a file of the source tree the check binary was built from: the driver builds with
-// `go build -overlay` (mutants / proposed fixes replace files without touching the repository), so a
-// replacement listed in the build's overlay file wins over the file in the repository.
+// `go test -c -overlay <dir of the binary>/overlay.json` (mutants / proposed fixes replace files without
+// touching the repository; runs with --mutant have a private build directory), so a replacement listed in the
+// overlay file next to the running binary wins over the file in the repository.
 func readSource(repo, rel string) ([]byte, error) {
 	p := filepath.Join(repo, rel)
-	dir := os.Getenv("VERIF_DIR")
-	if dir == "" {
-		dir = "/verif"
-	}
-	if b, err := os.ReadFile(filepath.Join(dir, ".build", "c34", "overlay.json")); err == nil {
-		var ov struct{ Replace map[string]string }
-		if json.Unmarshal(b, &ov) == nil {
+	if exe, err := os.Executable(); err == nil {
+		if b, err := os.ReadFile(filepath.Join(filepath.Dir(exe), "overlay.json")); err == nil {
+			var ov struct{ Replace map[string]string }
+			if err := json.Unmarshal(b, &ov); err != nil {
+				return nil, fmt.Errorf("build overlay next to the check binary is unreadable: %v", err)
+			}
 			if r, ok := ov.Replace[p]; ok && r != "" {
 				p = r
 			}
@@ -183,16 +183,82 @@ type Params struct {
 	IgnoreMarksDelayS int64 `json:"ignore_marks_delay_s"`
 	SyncIntervalS     int64 `json:"sync_interval_s"`
 	CompactIgnoreDiv  int64 `json:"compact_ignore_div"`
+
+	// store gateway set: one gateway, or (Owner2 != nil) two gateways sharded by hashmod(__block_id) % 2 where the
+	// ids of the blocks in Owner2 hash to the second one
+	Owner2 []string `json:"owner2,omitempty"`
+	// the model's view of the filter chain of cmd/thanos/store.go, in order (see chainNames)
+	Chain []string `json:"chain"`
+	// store --consistency-delay the real gateways run with (seconds)
+	GwConsistencyS int64 `json:"gw_consistency_delay_s"`
+}
+
+func (p Params) gateways() int {
+	if len(p.Owner2) > 0 {
+		return 2
+	}
+	return 1
+}
+
+// owner is the gateway (1-based) that model block b hashes to.
+func (p Params) owner(b string) int {
+	for _, o := range p.Owner2 {
+		if o == b {
+			return 2
+		}
+	}
+	return 1
+}
+
+// shardedConsistencyDelay: the sharded gateway sets run with a non-zero --consistency-delay (the compactor's
+// default); a larger store default wins.
+const shardedConsistencyDelay = 30 * time.Minute
+
+// chainNames abstracts the filter chain parsed from cmd/thanos/store.go into the names Compaction.tla knows:
+// "shard", "mark", "dedup" are modelled; "parquet", "time" (default range) and "consistency" (results are
+// compactor-made and exempt, sources are older than the delay) keep every block of the model's catalogue.
+func chainNames(w Wiring) ([]string, error) {
+	var out []string
+	for _, item := range w.StoreChain {
+		switch {
+		case item == "parquetConvertedBlocksFilter":
+			out = append(out, "parquet")
+		case strings.HasPrefix(item, "block.NewTimePartitionMetaFilter("):
+			out = append(out, "time")
+		case strings.HasPrefix(item, "block.NewLabelShardedMetaFilter("):
+			out = append(out, "shard")
+		case strings.HasPrefix(item, "block.NewConsistencyDelayMetaFilter("):
+			out = append(out, "consistency")
+		case item == "ignoreDeletionMarkFilter":
+			out = append(out, "mark")
+		case strings.HasPrefix(item, "block.NewDeduplicateFilter("):
+			out = append(out, "dedup")
+		default:
+			return nil, fmt.Errorf("store.go filter chain entry %q is unknown to the harness", item)
+		}
+	}
+	return out, nil
 }
 
 // scale turns the flag defaults into ticks: one tick = max(deleteDelay, ignoreDelay)/ticksPerMax (whole
 // seconds). The real comparisons are "age > delay" on whole-tick ages, so floor(delay/tick) is exact for D
 // and I; the sync period is rounded up (more lag than in production); a sync takes at most one tick.
-func scale(w Wiring, ticksPerMax, njobs int, replica bool) (Params, error) {
+func scale(w Wiring, ticksPerMax, njobs int, replica bool, owner2 []string) (Params, error) {
 	p := Params{NJobs: njobs, Repl: replica, S: 1, N: ticksPerMax, CompactIgnoreDiv: w.CompactIgnoreDiv,
-		DeleteDelayS: int64(w.DeleteDelay / time.Second), IgnoreMarksDelayS: int64(w.IgnoreMarksDelay / time.Second), SyncIntervalS: int64(w.SyncInterval / time.Second)}
-	if w.DeleteDelay%time.Second != 0 || w.IgnoreMarksDelay%time.Second != 0 {
+		DeleteDelayS: int64(w.DeleteDelay / time.Second), IgnoreMarksDelayS: int64(w.IgnoreMarksDelay / time.Second), SyncIntervalS: int64(w.SyncInterval / time.Second),
+		Owner2: append([]string(nil), owner2...), GwConsistencyS: int64(w.StoreConsistency / time.Second)}
+	if w.DeleteDelay%time.Second != 0 || w.IgnoreMarksDelay%time.Second != 0 || w.StoreConsistency%time.Second != 0 {
 		return p, fmt.Errorf("delays with sub-second parts are not supported by the harness")
+	}
+	var err error
+	if p.Chain, err = chainNames(w); err != nil {
+		return p, err
+	}
+	if p.gateways() > 1 && w.StoreConsistency < shardedConsistencyDelay {
+		p.GwConsistencyS = int64(shardedConsistencyDelay / time.Second)
+	}
+	if time.Duration(p.GwConsistencyS)*time.Second >= sourceAge {
+		return p, fmt.Errorf("store consistency delay %ds is not below the age of the model's source blocks", p.GwConsistencyS)
 	}
 	longest := p.DeleteDelayS
 	if p.IgnoreMarksDelayS > longest {
